@@ -164,6 +164,8 @@ impl ROp {
 pub struct Spec {
     pub cap: usize,
     pub keyseed: u64,
+    /// the first `warm` writer operations run to completion before any reader is scheduled
+    pub warm: usize,
     pub wprog: Vec<WOp>,
     pub rprogs: Vec<Vec<ROp>>,
 }
@@ -171,7 +173,7 @@ pub struct Spec {
 impl Spec {
     fn prog_lines(&self) -> Vec<String> {
         let j = |v: Vec<String>| v.iter().map(|s| s.replace(' ', ".")).collect::<Vec<_>>().join(" ");
-        let mut out = vec![format!("m prog w {} {}", self.keyseed, j(self.wprog.iter().map(|o| o.text()).collect()))];
+        let mut out = vec![format!("m prog w {} {} {}", self.keyseed, self.warm, j(self.wprog.iter().map(|o| o.text()).collect()))];
         for (i, p) in self.rprogs.iter().enumerate() {
             out.push(format!("m prog r{i} {}", j(p.iter().map(|o| o.text()).collect())));
         }
@@ -185,13 +187,14 @@ impl Spec {
         }
         let cap: usize = t[1].parse().ok()?;
         let n: usize = t[2].parse().ok()?;
-        let mut sp = Spec { cap: cap.clamp(1, 16), keyseed: 1, wprog: vec![], rprogs: vec![vec![]; n.clamp(1, 4)] };
+        let mut sp = Spec { cap: cap.clamp(1, 16), keyseed: 1, warm: 0, wprog: vec![], rprogs: vec![vec![]; n.clamp(1, 4)] };
         for l in &lines[1..] {
             let t: Vec<&str> = l.split(' ').filter(|x| !x.is_empty()).collect();
             if t.len() >= 3 && t[0] == "m" && t[1] == "prog" {
                 if t[2] == "w" {
                     sp.keyseed = t.get(3).and_then(|x| x.parse().ok()).unwrap_or(1);
-                    for tok in t.iter().skip(4) {
+                    sp.warm = t.get(4).and_then(|x| x.parse().ok()).unwrap_or(0);
+                    for tok in t.iter().skip(5) {
                         let parts: Vec<&str> = tok.split('.').collect();
                         if let Some(op) = WOp::parse(&parts) {
                             sp.wprog.push(op);
@@ -670,6 +673,7 @@ pub fn run_case(rec: &mut Recorder, spec: &Spec, mode: &mut Mode) -> Outcome {
     let mut expired: Vec<Vec<bool>> = vec![vec![]; n]; // per reader context: a seal returned NotFound
     let mut next_seq: Vec<Vec<u64>> = vec![vec![]; n];
     let mut widx = 0usize;
+    let mut wret = 0usize; // writer operations that have returned
 
     loop {
         let st = match sched.quiesce() {
@@ -707,7 +711,8 @@ pub fn run_case(rec: &mut Recorder, spec: &Spec, mode: &mut Mode) -> Outcome {
         // ---- choose
         let mut spur: Option<usize> = None;
         let mut wake_pref: Option<usize> = None;
-        let t = match mode {
+        let warming = wret < spec.warm && runnable.contains(&0);
+        let t = if warming { 0 } else { match mode {
             Mode::Dfs(d) => runnable[d.choose(runnable.len())],
             Mode::Random { rng, sticky, spur_pct } => {
                 if !sleepers.is_empty() && rng.below(100) < *spur_pct {
@@ -749,7 +754,7 @@ pub fn run_case(rec: &mut Recorder, spec: &Spec, mode: &mut Mode) -> Outcome {
                 }
                 pick.unwrap_or(runnable[0])
             }
-        };
+        } };
         out.steps += 1;
         if let Some(w) = spur {
             sched.release(w);
@@ -927,6 +932,7 @@ pub fn run_case(rec: &mut Recorder, spec: &Spec, mode: &mut Mode) -> Outcome {
                 fails.push((p, format!("{who}: unexpected result `{r}`")));
             }
             if t == 0 {
+                wret += 1;
                 if let Some((op, post)) = pending.take() {
                     match &op {
                         WOp::Add { .. } => {
@@ -1149,7 +1155,7 @@ pub fn gen_spec(rng: &mut Rng, cfg: &GenCfg) -> Spec {
         }
         rprogs.push(p);
     }
-    Spec { cap, keyseed: rng.next_u64() >> 16, wprog, rprogs }
+    Spec { cap, keyseed: rng.next_u64() >> 16, warm: pre as usize, wprog, rprogs }
 }
 
 pub fn account(rec: &mut Recorder, kind: &str, spec: &Spec, o: &Outcome) {
@@ -1252,3 +1258,304 @@ pub fn drive(rec: &mut Recorder, prop: &str, focus: u8, fixed: &[(Spec, usize)],
         }
     }
 }
+
+// ------------------------------------------------------------------ the in-memory state
+
+use aranya_fast_channels::memory;
+
+type MState = memory::State<CS>;
+
+struct MCtxReal {
+    seal: Option<memory::SealCtx<CS>>,
+    open: Option<memory::OpenCtx<CS>>,
+    id: u64,
+    is_seal: bool,
+    next_seq: u64,
+}
+
+/// One case on the REAL `memory::State` (`AranyaState` half and `AfcState` half are clones of
+/// one state, as in the daemon): a random sequence of operations, each answered by the Lean
+/// model `AranyaV.ShmMem` (`mo …` lines).  Operations run one at a time: the state serialises
+/// them with its mutex, the lock-free `Loan` fast path is the subject of C44.
+pub fn run_mem_case(rec: &mut Recorder, rng: &mut Rng, nops: usize, lines: Option<(u64, &[String])>) -> Vec<(&'static str, String)> {
+    let mut fails: Vec<(&'static str, String)> = vec![];
+    let st = MState::new();
+    let wr = st.clone();
+    let cl = Client::new(st);
+    rec.line("mnew", "ok");
+    let keyseed = match &lines {
+        Some((k, _)) => *k,
+        None => rng.next_u64() >> 16,
+    };
+    rec.line(format!("m memseed {keyseed}"), "m");
+    let mut ctxs: Vec<MCtxReal> = vec![];
+    // specification: channels in the map (id, dir, par)
+    let mut tab: Vec<(u64, u64, u64)> = vec![];
+    let mut addinfo: Vec<(u64, u64)> = vec![];
+    let mut ever: u64 = 0;
+    let pt = b"verif-afc-mem";
+    let replay: Option<Vec<String>> = lines.map(|l| l.1.to_vec());
+    let total = replay.as_ref().map_or(nops, |l| l.len());
+    for step in 0..total {
+        // ---- pick an operation (text after `mo `)
+        let live = |ctxs: &Vec<MCtxReal>, seal: bool| -> Vec<usize> {
+            (0..ctxs.len()).filter(|&k| if seal { ctxs[k].seal.is_some() } else { ctxs[k].open.is_some() }).collect()
+        };
+        let op: String = if let Some(l) = &replay {
+            match l[step].strip_prefix("mo ") {
+                Some(o) => o.to_string(),
+                None => continue,
+            }
+        } else {
+            let r = rng.below(100);
+            let anyid = |rng: &mut Rng| rng.below(ever + 1);
+            match r {
+                0..=17 => format!("add {} {}", rng.range(1, 2), rng.below(PARS)),
+                18..=25 => format!("rm {}", anyid(rng)),
+                26..=27 => "rmall".into(),
+                28..=33 => format!(
+                    "rmif {}",
+                    match rng.below(5) {
+                        0 => Pred::None,
+                        1 => Pred::Par(rng.below(PARS)),
+                        2 => Pred::Dir(rng.range(1, 2)),
+                        3 => Pred::IdLt(anyid(rng)),
+                        _ => Pred::IdGe(anyid(rng)),
+                    }
+                    .text()
+                ),
+                34..=39 => format!("ex {}", anyid(rng)),
+                40..=57 => format!("setup {} {}", if rng.chance(2, 3) { "s" } else { "o" }, anyid(rng)),
+                58..=82 => {
+                    let l = live(&ctxs, true);
+                    if l.is_empty() { format!("ex {}", anyid(rng)) } else { format!("seal {} {}", rng.pick(&l), rng.chance(1, 4) as u8) }
+                }
+                83..=92 => {
+                    let l = live(&ctxs, false);
+                    if l.is_empty() { format!("ex {}", anyid(rng)) } else { format!("open {} {}", rng.pick(&l), rng.chance(1, 4) as u8) }
+                }
+                _ => {
+                    let l: Vec<usize> = (0..ctxs.len()).filter(|&k| ctxs[k].seal.is_some() || ctxs[k].open.is_some()).collect();
+                    if l.is_empty() { format!("ex {}", anyid(rng)) } else { format!("drop {}", rng.pick(&l)) }
+                }
+            }
+        };
+        let t: Vec<&str> = op.split(' ').collect();
+        let present = |tab: &Vec<(u64, u64, u64)>, x: u64| tab.iter().any(|c| c.0 == x);
+        let label_of = |x: u64| label_id(addinfo.get(x as usize).map_or(0, |c: &(u64, u64)| c.1));
+        let res: String = match t.as_slice() {
+            ["add", d, p] => {
+                let (d, p): (u64, u64) = (d.parse().unwrap_or(1), p.parse().unwrap_or(0));
+                let raw = raw_key(keyseed, ever);
+                let keys = if d == 1 {
+                    Directed::SealOnly { seal: SealKey::<CS>::from_raw(&raw, Seq::ZERO).expect("seal key") }
+                } else {
+                    Directed::OpenOnly { open: OpenKey::<CS>::from_raw(&raw_open(&raw)).expect("open key") }
+                };
+                match wr.add(keys, label_id(p), DeviceId::default()) {
+                    Ok(id) => {
+                        let id = chan_num(id);
+                        if id != ever {
+                            fails.push(("C42", format!("memory add returned id {id}, expected {ever}")));
+                        }
+                        tab.push((id, d, p));
+                        addinfo.push((d, p));
+                        ever += 1;
+                        format!("id{id}")
+                    }
+                    Err(e) => err_kind(&e),
+                }
+            }
+            ["rm", x] => {
+                let x: u64 = x.parse().unwrap_or(0);
+                tab.retain(|c| c.0 != x);
+                wr.remove(chan_id(x)).map(|_| "ok".to_string()).unwrap_or_else(|e| err_kind(&e))
+            }
+            ["rmall"] => {
+                tab.clear();
+                wr.remove_all().map(|_| "ok".to_string()).unwrap_or_else(|e| err_kind(&e))
+            }
+            ["rmif", rest @ ..] => {
+                let Some(p) = Pred::parse(rest) else { continue };
+                tab.retain(|c| !p.eval(c.0, c.1, c.2));
+                wr.remove_if(|q| {
+                    let dir = match q.direction {
+                        ChannelDirection::Seal => 1,
+                        ChannelDirection::Open => 2,
+                    };
+                    p.eval(chan_num(q.local_channel_id), dir, label_par(q.label_id))
+                })
+                .map(|_| "ok".to_string())
+                .unwrap_or_else(|e| err_kind(&e))
+            }
+            ["ex", x] => {
+                let x: u64 = x.parse().unwrap_or(0);
+                let a = AranyaState::exists(&wr, chan_id(x)).map(|b| b as u8).unwrap_or(9);
+                let b = AfcState::exists(cl.state(), chan_id(x)).map(|b| b as u8).unwrap_or(9);
+                if a != b || a != present(&tab, x) as u8 {
+                    fails.push(("C42", format!("memory exists({x}): writer half {a}, reader half {b}, specification {}", present(&tab, x) as u8)));
+                }
+                format!("b{b}")
+            }
+            ["setup", kind, x] => {
+                let x: u64 = x.parse().unwrap_or(0);
+                let is_seal = *kind == "s";
+                let live_for_x = ctxs.iter().any(|c| c.id == x && (c.seal.is_some() || c.open.is_some()));
+                let r = if is_seal {
+                    cl.setup_seal_ctx(chan_id(x)).map(|c| MCtxReal { seal: Some(c), open: None, id: x, is_seal, next_seq: 0 })
+                } else {
+                    cl.setup_open_ctx(chan_id(x)).map(|c| MCtxReal { seal: None, open: Some(c), id: x, is_seal, next_seq: 0 })
+                };
+                match r {
+                    Ok(c) => {
+                        if live_for_x {
+                            fails.push(("C40", format!("memory state handed out a second live context for channel {x}")));
+                        }
+                        if !tab.iter().any(|c| c.0 == x && c.1 == if is_seal { 1 } else { 2 }) {
+                            fails.push(("C41", format!("memory setup succeeded for channel {x}, which is not in the map with that direction")));
+                        }
+                        ctxs.push(c);
+                        format!("ctx{}", ctxs.len() - 1)
+                    }
+                    Err(e) => {
+                        if !live_for_x && tab.iter().any(|c| c.0 == x && c.1 == if is_seal { 1 } else { 2 }) {
+                            fails.push(("C41", format!("memory setup failed for the present, unloaned channel {x}: {e:?}")));
+                        }
+                        err_kind(&e)
+                    }
+                }
+            }
+            ["seal", k, f] => {
+                let (k, f): (usize, bool) = (k.parse().unwrap_or(0), *f == "1");
+                let Some(c) = ctxs.get_mut(k) else { continue };
+                let x = c.id;
+                let Some(ctx) = c.seal.as_mut() else { continue };
+                let r = if f {
+                    match cl.state().seal(ctx, |_k, _l| Err::<(), Error>(Error::Authentication)) {
+                        Ok(Ok(())) => "err:closure-ok".to_string(),
+                        Ok(Err(_)) => "ferr".into(),
+                        Err(e) => err_kind(&e),
+                    }
+                } else {
+                    let mut dst = vec![0u8; pt.len() + OVERHEAD];
+                    match cl.seal(ctx, &mut dst, pt) {
+                        Ok(_) => {
+                            let seq = u64::from_le_bytes(dst[dst.len() - HDR..].try_into().unwrap());
+                            let ok = OpenKey::<CS>::from_raw(&raw_open(&raw_key(keyseed, x)))
+                                .ok()
+                                .and_then(|ok| {
+                                    let mut out = vec![0u8; pt.len()];
+                                    let ad = AuthData { version: u32::from(Version::V1 as u16), label_id: label_of(x) };
+                                    ok.open(&mut out, &dst[..dst.len() - HDR], &ad, Seq::new(seq)).ok().map(|_| out == pt)
+                                })
+                                .unwrap_or(false);
+                            if !ok {
+                                fails.push(("C40", format!("memory seal on channel {x}: ciphertext does not open under the channel key at seq {seq}")));
+                            }
+                            if seq != c.next_seq {
+                                fails.push(("C40", format!("memory seal on channel {x}: successful seal number {} carries sequence number {seq}", c.next_seq)));
+                            }
+                            c.next_seq = seq + 1;
+                            format!("seq{seq}")
+                        }
+                        Err(e) => err_kind(&e),
+                    }
+                };
+                let should_nf = !present(&tab, x);
+                if should_nf != (r == "nf") {
+                    fails.push(("C41", format!("memory seal on channel {x} (in the map: {}) returned `{r}`", !should_nf)));
+                }
+                r
+            }
+            ["open", k, f] => {
+                let (k, f): (usize, bool) = (k.parse().unwrap_or(0), *f == "1");
+                let Some(c) = ctxs.get_mut(k) else { continue };
+                let x = c.id;
+                let Some(ctx) = c.open.as_mut() else { continue };
+                let mut wire = vec![0u8; pt.len() + OVERHEAD];
+                let n = wire.len();
+                let ad = AuthData { version: u32::from(Version::V1 as u16), label_id: label_of(x) };
+                if let Some(q) = SealKey::<CS>::from_raw(&raw_key(keyseed, x), Seq::new(5)).ok().and_then(|mut sk| sk.seal(&mut wire[..n - HDR], pt, &ad).ok()) {
+                    wire[n - HDR..].copy_from_slice(&u64::from(q).to_le_bytes());
+                }
+                if f {
+                    wire[1] ^= 0x10;
+                }
+                let mut dst = vec![0u8; pt.len()];
+                let r = match cl.open(ctx, &mut dst, &wire) {
+                    Ok((l, q)) => {
+                        if dst == pt && u64::from(q) == 5 && l == label_of(x) { "opened".to_string() } else { "opened!badpt".to_string() }
+                    }
+                    Err(e) => err_kind(&e),
+                };
+                let should_nf = !present(&tab, x);
+                if should_nf != (r == "nf") {
+                    fails.push(("C41", format!("memory open on channel {x} (in the map: {}) returned `{r}`", !should_nf)));
+                }
+                r
+            }
+            ["drop", k] => {
+                let k: usize = k.parse().unwrap_or(0);
+                let Some(c) = ctxs.get_mut(k) else { continue };
+                if c.seal.is_none() && c.open.is_none() {
+                    continue;
+                }
+                c.seal = None;
+                c.open = None;
+                let _ = c.is_seal;
+                "ok".into()
+            }
+            _ => continue,
+        };
+        if res.contains('!') || res.starts_with("err:") {
+            fails.push(("all", format!("memory `{op}`: unexpected result `{res}`")));
+        }
+        let class: String = res.chars().take_while(|c| c.is_ascii_alphabetic()).collect();
+        rec.count(&format!("mem:{}:{class}", t[0]));
+        rec.line(format!("mo {op}"), res.split('!').next().unwrap().to_string());
+    }
+    fails
+}
+
+/// `cases` random memory-state cases
+pub fn drive_mem(rec: &mut Recorder, prop: &str, seed: u64, cases: usize) {
+    let mut rng = Rng::new(seed ^ 0x6d65_6d);
+    for c in 0..cases {
+        rec.begin_case();
+        let n = rng.range(10, 60) as usize;
+        let fails = run_mem_case(rec, &mut rng, n, None);
+        rec.count("runs:memory");
+        if n >= 10 {
+            rec.nontrivial(fnv(&format!("mem{seed}-{c}")));
+        }
+        let o = Outcome { fails, ..Default::default() };
+        report(rec, prop, &o);
+    }
+}
+
+/// replay of the memory cases of a replay file (`mnew`, `mo …`)
+pub fn replay_mem_cases(rec: &mut Recorder, prop: &str, lines: &[String]) {
+    let mut i = 0;
+    while i < lines.len() {
+        if lines[i] == "mnew" {
+            let mut j = i + 1;
+            while j < lines.len() && lines[j] != "mnew" && !lines[j].starts_with("new ") {
+                j += 1;
+            }
+            let seed = lines[i + 1..j]
+                .iter()
+                .find_map(|l| l.strip_prefix("m memseed ").and_then(|x| x.parse::<u64>().ok()))
+                .unwrap_or(1);
+            let mut rng = Rng::new(seed);
+            let ops: Vec<String> = lines[i + 1..j].iter().filter(|l| l.starts_with("mo ")).cloned().collect();
+            rec.begin_case();
+            let fails = run_mem_case(rec, &mut rng, 0, Some((seed, &ops)));
+            let o = Outcome { fails, ..Default::default() };
+            report(rec, prop, &o);
+            i = j;
+        } else {
+            i += 1;
+        }
+    }
+}
+
